@@ -498,6 +498,13 @@ func runC17Switch(k int, rng *Rng) CaseResult {
 	}
 	switches := 0
 	var kinds []string
+	schemaValues := map[string]*sod.Schema{}
+	var lastAsync *Config
+	if cfg.Async != 0 {
+		c := cfg
+		lastAsync = &c
+		schemaValues[fmt.Sprintf("%v/%d/%d/%s", cfg.Cache, cfg.Async, cfg.Threshold, cfg.Timeout)] = w.lastSchema
+	}
 	o := HistOpts{MaxObjs: 10, Rec: RecOpts{ValidOnly: true, Simple: true}, Mix: Mix{Ins: 45, Upd: 30, Del: 12, Many: 5, Noop: 3}}
 	steps := 10 + rng.Intn(20)
 	for i := 0; i < steps && !w.failed(); i++ {
@@ -510,7 +517,10 @@ func runC17Switch(k int, rng *Rng) CaseResult {
 			case 0:
 				nc.Cache = !nc.Cache
 			case 1:
-				if nc.Async == 0 {
+				if nc.Async == 0 && lastAsync != nil && rng.P(0.6) {
+					// back to the asynchronous settings used before (their Schema value is still held)
+					nc.Async, nc.Threshold, nc.Timeout, nc.Cache = lastAsync.Async, lastAsync.Threshold, lastAsync.Timeout, lastAsync.Cache
+				} else if nc.Async == 0 {
 					nc.Async, nc.Threshold, nc.Timeout = 2, pick(rng, []int{1, 3, 50}), pick(rng, []time.Duration{100 * time.Millisecond, 300 * time.Millisecond, time.Hour})
 				} else {
 					nc.Async, nc.Threshold, nc.Timeout = 0, 0, 0
@@ -535,7 +545,23 @@ func runC17Switch(k int, rng *Rng) CaseResult {
 			w.cfg = nc
 			w.m.cfg = nc
 			var e error
-			w.call("Create(switch)", func() { e = w.db.Create(&Rec{}, schemaFor(nc, &Rec{})) })
+			// an application toggles between the Schema values it holds (one per mode) as often
+			// as it builds a new one
+			key := fmt.Sprintf("%v/%d/%d/%s", nc.Cache, nc.Async, nc.Threshold, nc.Timeout)
+			sv, held := schemaValues[key]
+			if nc.Async != 0 {
+				c := nc
+				lastAsync = &c
+			}
+			if !held || rng.P(0.4) {
+				v := schemaFor(nc, &Rec{})
+				sv = &v
+				schemaValues[key] = sv
+			} else {
+				kind += ",held-value"
+				kinds[len(kinds)-1] = kind
+			}
+			w.call("Create(switch)", func() { e = w.db.Create(&Rec{}, *sv) })
 			if e != nil {
 				w.fail("settings-switch-refused", "Create", kind, e.Error())
 				break
@@ -557,6 +583,20 @@ func runC17Switch(k int, rng *Rng) CaseResult {
 			w.Step(o)
 			w.ReadSweep()
 		}
+	}
+	// "without disturbing the running process": whatever was switched, if the collection ends up
+	// asynchronous its flusher runs, and silence for timeout + 4 iterations brings everything to disk
+	if !w.failed() && switches > 0 && w.cfg.Async != 0 && w.cfg.Timeout <= time.Second && shimAvailable {
+		clockSettle()
+		n := int(w.cfg.Timeout/(100*time.Millisecond)) + 4
+		for j := 0; j < n && clockLive() > 0; j++ {
+			clockTick()
+		}
+		sp, ex := clockFlusherCensus()
+		if st := w.diskStatus(); st.dirty > 0 || !st.schemaOK {
+			w.fail("pending-not-flushed-after-switch", "flusher", "-", fmt.Sprintf("after the switches %v and timeout+4 iterations without calls: dirty=%d schema=%v; flushers: %d running (%d started, %d returned)", kinds, st.dirty, st.schemaOK, clockLive(), sp, ex))
+		}
+		stats.Count("flush_after_switch_checks", 1)
 	}
 	// nothing accepted may be lost: Close, decode the directory, reopen
 	if !w.failed() {
